@@ -446,9 +446,10 @@ type runOut struct {
 	Late     int       `json:"late"` // requests after close
 	Anomaly  string    `json:"anomaly,omitempty"`
 	Panic    string    `json:"panic,omitempty"`
+	Raced    bool      `json:"-"` // a deadline fired before the scripted deliveries of its phase were made (machine too slow): re-run
 }
 
-const sysTimeout = 250 * time.Millisecond
+const sysTimeout = 500 * time.Millisecond
 
 func runOne(c *fakecluster.Cluster, run sysRun) (out runOut) {
 	defer func() {
@@ -691,6 +692,17 @@ func runOne(c *fakecluster.Cluster, run sysRun) (out runOut) {
 		}
 		var envBefore func() // environment action performed right before the next delivery is made (a finalizer completes)
 		deliver := func(id object.ObjMetadata, st status.Status, withRes bool, genDelta int64, newUID bool) bool {
+			if done() && anyPending() && run.Opts.Timeout {
+				// the phase is over although objects are pending and deliveries remain: the real deadline beat the script
+				select {
+				case <-stop:
+				default:
+					mu.Lock()
+					out.Raced = true
+					mu.Unlock()
+				}
+				return false
+			}
 			if done() || !anyPending() {
 				return false
 			}
@@ -845,6 +857,18 @@ loop:
 }
 
 func runSys(in sysIn) map[string]any {
+	var res map[string]any
+	for attempt := 0; attempt < 4; attempt++ {
+		var raced bool
+		res, raced = runSysOnce(in)
+		if !raced {
+			break
+		}
+	}
+	return res
+}
+
+func runSysOnce(in sysIn) (map[string]any, bool) {
 	c := fakecluster.New()
 	// environment: namespaces used by the catalogue exist unless a run applies them; pre-existing objects
 	for _, o := range in.Pre {
@@ -853,10 +877,13 @@ func runSys(in sysIn) map[string]any {
 		}
 	}
 	runs := []runOut{}
+	raced := false
 	for _, r := range in.Runs {
-		runs = append(runs, runOne(c, r))
+		o := runOne(c, r)
+		raced = raced || o.Raced
+		runs = append(runs, o)
 	}
-	return map[string]any{"pre": takeSnapshot(c0(in)), "runs": runs}
+	return map[string]any{"pre": takeSnapshot(c0(in)), "runs": runs}, raced
 }
 
 // c0 rebuilds the initial cluster (for the "pre" snapshot in the output)
